@@ -27,6 +27,10 @@ TIES = {
                 lambda: __import__("run2v").translate(REPO),
                 ("Run", "RunSrc.v"), ("Run", "RunSrcEq.v"), "From V Require Import Scan.ScanModel Scan.PySem Scan.ScanSrc Scan.ScanSrcEq Run.RunLoop Run.RunSem Run.RunSrc.",
                 "From V Require Import Scan.ScanModel Scan.PySem Scan.ScanSrc Scan.ScanSrcEq Run.RunLoop Run.RunSem.\nFrom Tie Require Import RunSrc.", "consider_line_src_eq"),
+    "aggregate": ("Result.is_valid / ResultsManager.is_valid / ResultsRegistrar.all_valid (csvpath/managers/results/*.py)",
+                  lambda: __import__("agg2v").translate(REPO),
+                  ("Mgr", "AggSrc.v"), ("Mgr", "AggSrcEq.v"), "From V Require Import Scan.PySem Mgr.Aggregate Mgr.AggSrc.",
+                  "From V Require Import Scan.PySem Mgr.Aggregate.\nFrom Tie Require Import AggSrc.", "rm_is_valid_src_eq, all_valid_src_eq"),
 }
 
 
